@@ -28,6 +28,7 @@ func runC15(c *core.Ctx) {
 	h.viewLowerBound("C15.3 view-lower-bound")
 	c.Clause("C15.4 every task is answered or handed to a holder that is drained (E7)")
 	h.taskTypestate("C15.4 task-typestate")
+	h.transferReplyMeaning("C15.4b transfer-state")
 	c.Clause("C15.5 shutdown can make progress: ordering of Serve's epilogue, single closer of Raft.close")
 	h.shutdownOrder("C15.5 shutdown")
 	c.Clause("C15.6 panic conversion routes through recoverErr")
@@ -499,7 +500,7 @@ func (h H) taskTypestate(rule string) {
 	hasQueue, hasWait := false, false
 	for _, t := range targets {
 		if strings.Contains(t, "neHead") {
-			hasQueue = true
+			hasQueue = strings.Contains(t, ".next)")
 		}
 		if strings.Contains(t, "waitStable") {
 			hasWait = true
@@ -512,6 +513,8 @@ func (h H) taskTypestate(rule string) {
 	svfi := h.P.Info(sv)
 	drain := false
 	for _, c := range h.P.CallsTo(sv, reply) {
+		recv := svfi.Sym(c.Common().Args[0]).String()
+		h.C.Check(rule+" drain-walks-batch", "(*Raft).Serve drain receiver", strings.Contains(recv, ".next)"), h.pos(c), "Serve's drain answers only the head of each batch: the entries linked behind it are never completed; receiver: "+recv)
 		if svfi.Sym(c.Common().Args[1]).String() == "global:ErrServerClosed" {
 			calls := h.P.CallsTo(sv, sl)
 			if len(calls) == 1 && calls[0].Block().Dominates(c.Block()) {
